@@ -2,7 +2,7 @@
     harness from the front end's resolved trees, a result leaves as an s-expression that the
     harness also prints for the real [Spec]. References are printed as their position in
     the final reference table (implicit names are hashes in the code, keys in the model). *)
-From Oal Require Export Eval Typing Strat.
+From Oal Require Export Eval Typing Strat Builder.
 Local Open Scope N_scope.
 
 Inductive sx := A (z : Z) | L (l : list sx).
@@ -292,4 +292,39 @@ Definition run_strat (x : sx) : sx :=
       let rk := ranks P in
       L [ebool (stratified P rs);
          ebool (all_decls P (fun _ _ d => fo P (d_rhs d)) && forallb (fo P) rs)]
+  end.
+
+(** * the document tie: evaluate, build the document (Model/Builder.v), print it as an s-expression *)
+Fixpoint ejson (j : json) : sx :=
+  match j with
+  | JNull => L [A 0%Z]
+  | JBool b => L [A 1%Z; ebool b]
+  | JInt z => L [A 2%Z; A z]
+  | JFlt i => L [A 3%Z; eN i]
+  | JStr t => L (A 4%Z :: map eN t)
+  | JArr l => L (A 5%Z :: map ejson l)
+  | JObj m => L (A 6%Z :: map (fun kv => match kv with (k, v) => L [L (map eN k); ejson v] end) m)
+  end.
+
+Definition dtext (x : sx) : option (list N) := dlist dN x.
+
+(** input: (program strings names); output: (0 json) | the evaluation's error / panic | (5) missing reference *)
+Definition run_doc (x : sx) : sx :=
+  match x with
+  | L [p; ss; ns] =>
+      match dprog p, dlist dtext ss, dlist dtext ns with
+      | Some (P, rs), Some strs, Some names =>
+          match eval_program false P FUEL rs with
+          | Ok (rels, table) =>
+              match document (fun i => nth (N.to_nat i) strs []) table names rels with
+              | Some j => L [A 0%Z; ejson j]
+              | None => L [A 5%Z]
+              end
+          | Err e => L [A 1%Z; eN e]
+          | Panic q => L [A 2%Z; eN q]
+          | Fuel => L [A 3%Z]
+          end
+      | _, _, _ => L [A 4%Z]
+      end
+  | _ => L [A 4%Z]
   end.
